@@ -362,6 +362,13 @@ class Model:
             if required:
                 raise AnalysisError(f"anchor vanished: function {qualname}")
             return None
+        # several functions of that name: the anchor is the one the reference tree has (a new helper elsewhere that happens to
+        # share the name is not it)
+        from .known_funcs import KNOWN_FUNCS as _KF
+
+        known_ = [f_ for f_ in fs if f"{f_.module}:{f_.qualname}" in _KF]
+        if len(known_) == 1:
+            return known_[0]
         if required:
             raise AnalysisError(f"ambiguous function name {qualname}")
         return None
